@@ -121,6 +121,12 @@ func catch(f func()) (panicked bool, msg string) {
 var caseTimeout = 30 * time.Second
 
 func runOne(p *Prop, raw []byte, out *bufio.Writer) {
+	// A fatal runtime error of the code under test (stack overflow by unbounded recursion,
+	// out of memory, concurrent map write) kills the process and cannot be recovered:
+	// leave the case being run where the driver finds it (bin/check: replay kind "crash").
+	if f := os.Getenv("VHARNESS_CURRENT"); f != "" {
+		os.WriteFile(f, raw, 0o644)
+	}
 	type res struct {
 		line *Line
 		err  error
